@@ -96,6 +96,11 @@ func sameQuantity(a, b ssa.Value) bool {
 	if LoadedField(sa) != nil && LoadedField(sa) == LoadedField(sb) && PathOf(sa) == PathOf(sb) {
 		return true
 	}
+	fa, okFA := sa.(*ssa.Field)
+	fb, okFB := sb.(*ssa.Field)
+	if okFA && okFB && fa.Field == fb.Field && fa.X == fb.X {
+		return true
+	}
 	return false
 }
 
